@@ -4,6 +4,7 @@ use crate::engine::{CaseResult, Ctx};
 use serde_json::Value as Json;
 
 pub mod c01;
+pub mod c02;
 
 pub struct Prop {
     pub id: &'static str,
@@ -17,7 +18,7 @@ pub struct Prop {
 }
 
 pub fn all() -> Vec<Prop> {
-    vec![c01::PROP]
+    vec![c01::PROP, c02::PROP]
 }
 
 pub fn find(id: &str) -> Option<Prop> {
